@@ -148,7 +148,7 @@ def run(F, R, ctx):
                        "%s no longer constructs the LifetimeGuard that revokes the lent reference" % lib.short_name(c), fn.loc(), sample=True)
     lg = F.adt("LifetimeGuard")
     d = F.fns.get(lg.get("drop") or "")
-    R.inst("C20.c", "LifetimeGuard::drop frees what was counted", d is not None and bool(d.call_blocks(r"OpaqueReferenceNursery\}::free_n$"))
+    R.inst("C20.c", "LifetimeGuard::drop frees what was counted", d is not None and bool(d.call_blocks(r"OpaqueReferenceNursery\}::free_n$", wrappers=True))
            and any(e[1] == "LifetimeGuard" and e[2] == "count" for _, _, e in d.events("fld")),
            "LifetimeGuard has no destructor calling OpaqueReferenceNursery::free_n(self.count): lent references stay "
            "reachable from scripts after the scope ends", "%s:%s" % (lg["file"], lg["line"]), sample=True)
@@ -179,5 +179,5 @@ def run(F, R, ctx):
                "still in use through the other" % ty, "", sample=True)
     nt = F.adt("NurseryAccessToken")
     dn = F.fns.get(nt.get("drop") or "")
-    R.inst("C20.c", "NurseryAccessToken::drop frees all", dn is not None and bool(dn.call_blocks(r"OpaqueReferenceNursery\}::free_all$")),
+    R.inst("C20.c", "NurseryAccessToken::drop frees all", dn is not None and bool(dn.call_blocks(r"OpaqueReferenceNursery\}::free_all$", wrappers=True)),
            "NurseryAccessToken's destructor no longer clears the nursery", "%s:%s" % (nt["file"], nt["line"]), sample=True)
